@@ -1,7 +1,7 @@
 """C11 - reduce equals the fold over exactly the currently valid elements (passive every-cycle probe of the result)."""
 from __future__ import annotations
 import functools
-from .runner import Result, Violation
+from .runner import Result, Violation, scaled
 from .gen_coll import gen_cscript, parse_dumps, write_log
 from .collmodel import Node, SHAPES
 from .prog import Case, S
@@ -166,7 +166,7 @@ def check_keyed(case, tr):
 
 
 def generate(rng, tier, seed):
-    n = 250 if tier == "quick" else 4000
+    n = scaled(250 if tier == "quick" else 4000)
     return [gen_case11(rng, f"c11_{seed}_{k}", k) for k in range(n)] + [gen_keyed_case(rng, f"c11_{seed}_kd{k}") for k in range(n // 4)]
 
 
